@@ -98,7 +98,8 @@ def run_case(case):
     # the first subject's name is a bounded symbolic string (2 printable characters, e.g. with leading / trailing blanks)
     from ..symstr import mk, SStr
     name_ch = [z3.Int("name0_%d" % i) for i in range(2)]
-    name_base = [z3.And(c >= 32, c <= 126) for c in name_ch] + [z3.Or(name_ch[0] != ord("s"), name_ch[1] != ord("2"))]
+    # ... and differs from every other (concrete) subject name of the case: subjects are distinct
+    name_base = [z3.And(c >= 32, c <= 126) for c in name_ch] + [z3.Or(name_ch[0] != ord(o[0]), name_ch[1] != ord(o[1])) for o in subjects[1:]]
 
     def reset_process():
         for lname in ("filelock", "inevalfilelock"):
